@@ -16,19 +16,7 @@
 (***************************************************************************)
 EXTENDS Traverse
 
-TokOrder == <<"TAB", "SP", "!", "\"", "#", "$", "%", "&", "'", "(", ")", "*", "+", ",", "-", ".", "/",
-              "0", "1", "2", "3", "4", "5", "6", "7", "8", "9", ":", ";", "<", "=", ">", "?", "@",
-              "A", "B", "C", "D", "E", "F", "G", "H", "I", "J", "K", "L", "M", "N", "O", "P", "Q", "R", "S", "T", "U", "V", "W", "X", "Y", "Z",
-              "[", "\\", "]", "^", "_", "`",
-              "a", "b", "c", "d", "e", "f", "g", "h", "i", "j", "k", "l", "m", "n", "o", "p", "q", "r", "s", "t", "u", "v", "w", "x", "y", "z",
-              "{", "|", "}", "~", "U2", "U3", "U4">>
-TxRank(t) == CHOOSE i \in 1..Len(TokOrder) : TokOrder[i] = t
-
-RECURSIVE TxLess(_, _)
-TxLess(a, b) == IF b = <<>> THEN FALSE
-                ELSE IF a = <<>> THEN TRUE
-                ELSE IF Head(a) = Head(b) THEN TxLess(Tail(a), Tail(b))
-                ELSE TxRank(Head(a)) < TxRank(Head(b))
+\* TokOrder / TxRank / TxLess live in ListOps.tla (shared with the list model)
 
 XStackText == <<"<", "<", "c", "u", "s", "t", "o", "m", "SP", "s", "t", "a", "c", "k", "SP", "s", "t", "r", "i", "n", "g", "e", "r", ">", ">">>
 XCondText  == <<"<", "<", "c", "u", "s", "t", "o", "m", "SP", "c", "o", "n", "d", "i", "t", "i", "o", "n", "SP", "s", "t", "r", "i", "n", "g", "e", "r", ">", ">">>
